@@ -43,8 +43,9 @@ public:
    /// If no singleton object exists yet, a new one is created with the
    /// specified parameters. If a singletob object exists already, the
    /// parameters are ignored.<br>
-   /// Uses the double checking locking pattern to prevent multiple threads
-   /// from creating the same object multiple times.
+   /// The check for an existing object, its creation and the access to it
+   /// are all made with the mutex held, so multiple threads cannot create the
+   /// object multiple times and never access the pointer concurrently.
    /// @tparam  Args  The types of the parameters to pass to the object's
    ///                constructor.
    /// @param[in]  args  The parameters to pass to the constructor of the
@@ -107,13 +108,13 @@ template< class T> template< class... Args>
    T& Singleton< T>::instance( Args&&... args)
 {
 
+   // every access to the instance pointer is made with the mutex held: an
+   // unlocked first check would read the plain pointer while another thread
+   // may be writing it (data race)
+   const std::lock_guard< std::mutex>  lg( mMutex);
    if (mpObject.get() == nullptr)
    {
-      const std::lock_guard< std::mutex>  lg( mMutex);
-      if (mpObject.get() == nullptr)
-      {
-         mpObject.reset( new T( std::forward< Args>( args)...));
-      } // end if
+      mpObject.reset( new T( std::forward< Args>( args)...));
    } // end if
 
    return *mpObject;
